@@ -203,6 +203,9 @@ class System:
                 for j in self.slots:
                     if i in act and j not in act:
                         ops.append(("callk-swap", i, j))  # the call deactivates i, then activates j
+            for i in self.slots:
+                # a global probe activated / deactivated inside a block shielded by no_overlay()
+                ops.append(("shield-act", i) if i not in act else ("shield-deact", i))
         if self.wname == "W3":
             # inside a copy of the current context (what a worker thread started with copy_context().run
             # sees): one more overlay on h is entered, h is called, the overlay is left
@@ -234,6 +237,9 @@ class System:
             return (act, wstack[:-1], calls, gen), "ok"
         if op[0] == "act_bad":
             return model, "refused"
+        if op[0] in ("shield-act", "shield-deact"):
+            act = act + (op[1],) if op[0] == "shield-act" else tuple(i for i in act if i != op[1])
+            return (act, wstack, calls, gen), "ok"
         if op[0] in ("callkt-act", "callkt-deact"):
             x = calls + 1
             act = act + (op[1],) if op[0] == "callkt-act" else tuple(i for i in act if i != op[1])
@@ -391,6 +397,18 @@ class System:
                 r = contextvars.copy_context().run(inner)
                 got = {s: list(e) for s, e in w.streams.items() if e}
                 return ("result", r, tuple(sorted((s, tuple(map(_canon, e))) for s, e in got.items())))
+            if op[0] in ("shield-act", "shield-deact"):
+                from ptera.overlay import no_overlay
+
+                with no_overlay():
+                    if op[0] == "shield-act":
+                        p = self._make(w, op[1])
+                        w.probes[op[1]] = p
+                        w.depth[op[1]] = 1
+                        p.__enter__()
+                    else:
+                        w.probes.pop(op[1]).__exit__(None, None, None)
+                return "ok"
             if op[0] == "shield":
                 from ptera.overlay import no_overlay
 
